@@ -85,6 +85,9 @@ def step (s : RefGL) : GL.Op → RefGL
       if o.all (· ∈ s.leaders) ∧ s.leaders.all (· ∈ o) then o.eraseDups.map (fun k => (k, s.members k)) else s
   | .replaceLeader l m =>
       if m ∈ s.members l ∧ l ∈ s.leaders then s.map (fun kv => if kv.1 = l then (m, kv.2) else kv) else s
+  | .groupNan d k => match d, k with
+    | .val d, .val k => group s d k
+    | _, _ => s
 
 end RefGL
 
